@@ -31,6 +31,8 @@ def run(ctx):
     r2_preamble(ctx)
     r3_terminator(ctx)
     r4_one_predicate(ctx)
+    r6_cancel_bookkeeping(ctx)
+    r7_signature_search(ctx)
     c07.r1_validator(ctx)   # recorded as R1 of this property: validated before any read
 
 
@@ -149,3 +151,110 @@ def r4_one_predicate(ctx):
               f'spine_types=[\'**kern\'] an unselected **text spine that carries *M4/4 adds a cell to the signature row only, and with '
               f'spine_ids the header row keeps every column - the excerpt\'s cell counts are inconsistent')
     ctx.count('R4.preamble_emission_sites', len(sites))
+
+
+def r6_cancel_bookkeeping(ctx):
+    """Header / spine-operator recovery prints a split only while it is open: every *v and every *- must mark the split it
+    closes (cancelled_at_stage := current stage) whenever there is one - independent of the column or of the neighbours."""
+    sop = ctx.prog.func(f'{N.IMPORTER}.Importer._compute_spine_operator_token')
+    content_p = sop.params[2]
+    eq = lambda v: G._cmp_atom(ast.Name(id=content_p), ast.Eq(), ast.Constant(value=v))[1]
+    has_op = 'self._tree.add_node'   # the node expression is long: recognise the atom by its suffix
+    n_checked = 0
+    import itertools
+    sps = symex.func_sym_paths(sop)
+    for op in ('*v', '*-'):
+        bad = set()
+        for sp in sps:
+            if sp.end == 'raise':
+                continue
+            fm = sp.condition()
+            ats = G.atoms_of(fm)
+            if not any(a == eq(op) for a in ats):
+                continue
+            for bits in itertools.product([False, True], repeat=len(ats)):
+                val = dict(zip(ats, bits))
+                if not G.evaluate(fm, val):
+                    continue
+                if not val.get(eq(op), False):
+                    continue
+                if any(val.get(eq(o), False) for o in ('*-', '*+', '*^', '*v', '*x') if o != op):
+                    continue
+                none_atoms = [a for a in ats if a.endswith('.last_spine_operator_node is None')]
+                has = none_atoms and not val[none_atoms[0]]
+                marks = [e for e in sp.events if e.kind == 'store' and isinstance(e.target, ast.Attribute) and e.target.attr == 'cancelled_at_stage'
+                         and src(e.expr) == 'self._tree_stage']
+                n_checked += 1
+                if none_atoms:
+                    if bool(marks) != bool(has):
+                        bad.add(('marks' if marks else 'does not mark') + ' with ' + ', '.join(f'{a[-40:]}={val[a]}' for a in ats if a not in none_atoms and not a.startswith("'")))
+                else:
+                    bad.add('no test of last_spine_operator_node on this path')
+        ctx.check(not bad, 'R6', sop.loc, sop.qualname, f'cancel-bookkeeping:{op}',
+                  f'{op}: the split it closes is marked cancelled at this stage whenever there is one, on every path',
+                  f'{op}: marking the closed split depends on more than its existence: {sorted(bad)[:2]} - a split that stays unmarked '
+                  f'is printed again by the header recovery of every later excerpt (a stray `*^ *` row)')
+    ctx.expect_count('R6', 'spine-operator valuations', n_checked, 4)
+    tok = ctx.prog.func(f'{N.TOKENS}.SpineOperationToken.is_cancelled_at')
+    rets = symex.returns(tok)
+    okc = sorted((G.show(c), src(v)) for c, v, _ in rets) == sorted([('self.cancelled_at_stage is None', 'False'),
+                                                                        ('not (self.cancelled_at_stage is None)', f'self.cancelled_at_stage < {tok.params[1]}')])
+    ctx.check(okc, 'R6', tok.loc, tok.qualname, 'is-cancelled-at', 'a split is cancelled at a stage iff it was closed strictly before it')
+
+
+def r7_signature_search(ctx):
+    """is_signature_cancelled(signature, node, from, to): decision structure confirmed on the reference tree - a token of the same
+    class restates the signature (True); the first note ends the search (False); otherwise every child is searched one stage
+    further while from < to."""
+    f = ctx.prog.func(f'{EXP}.is_signature_cancelled')
+    sig, nd, fr, to = f.params[1:5]
+    same = G._cmp_atom(ast.parse(f'{nd}.token.__class__', mode='eval').body, ast.Eq(), ast.parse(f'{sig}.token.__class__', mode='eval').body)[1]
+    note = f'isinstance({nd}.token, NoteRestToken)'
+    more = f'{fr} < {to}'
+    facts = {}
+    unknown = set()
+    for sp in symex.func_sym_paths(f):
+        fm = sp.condition()
+        for a in G.atoms_of(fm):
+            if a not in (same, note, more) and 'is_signature_cancelled' not in a:
+                unknown.add(a)
+    ctx.check(not unknown, 'R7', f.loc, f.qualname, 'signature-search-extra-condition',
+              'the search depends only on: same token class, first note, stages left',
+              f'the signature search also branches on {sorted(unknown)[:2]}: it no longer stops exactly at the first note of the excerpt, so a '
+              f'signature that changes after some notes of the first measure drops the signature that governs those notes')
+    sps = symex.func_sym_paths(f)
+    import itertools
+
+    def outcome(val):
+        res = set()
+        for sp in sps:
+            fm = sp.condition()
+            ats = G.atoms_of(fm)
+            free = [a for a in ats if a not in val]
+            for bits in itertools.product([False, True], repeat=len(free)):
+                v2 = dict(val)
+                v2.update(dict(zip(free, bits)))
+                if G.evaluate(fm, {a: v2[a] for a in ats}):
+                    if sp.end == 'return':
+                        res.add(src(sp.value))
+                    elif sp.end == 'fall':
+                        res.add('None')
+        return res
+    o_same = outcome({same: True, note: False, more: True}) | outcome({same: True, note: True, more: False})
+    o_note = outcome({same: False, note: True, more: True}) | outcome({same: False, note: True, more: False})
+    o_end = outcome({same: False, note: False, more: False})
+    ctx.check(o_same == {'True'}, 'R7', f.loc, f.qualname, 'same-class-restates', 'a token of the same class as the signature restates it: True',
+              f'same class -> {sorted(o_same)}')
+    ctx.check(o_note == {'False'}, 'R7', f.loc, f.qualname, 'first-note-ends-search', 'the first note ends the search: False',
+              f'a note -> {sorted(o_note)}: the search runs past the first note')
+    ctx.check(o_end <= {'False', 'None'}, 'R7', f.loc, f.qualname, 'no-stage-left', 'no stage left: not cancelled', f'no stage left -> {sorted(o_end)}')
+    loops = [n for n in walk_local(f.node) if isinstance(n, ast.For) and src(n.iter) == f'{nd}.children']
+    okl = len(loops) == 1
+    if okl:
+        lp = loops[0]
+        ch = lp.target.id
+        calls = [c for c in ast.walk(lp) if isinstance(c, ast.Call) and src(c.func) == 'self.is_signature_cancelled']
+        okl = len(calls) == 1 and [src(a) for a in calls[0].args] == [sig, ch, f'{fr} + 1', to] and len(lp.body) == 1 and isinstance(lp.body[0], ast.If) \
+            and lp.body[0].test is calls[0] and src(lp.body[0].body[0]) == 'return True'
+    ctx.check(okl, 'R7', f.loc, f.qualname, 'children-searched', 'every child is searched one stage further; the first hit returns True',
+              'the recursion does not search every child with (from + 1, to)')
